@@ -52,13 +52,34 @@ def cases(rng, tier):
         rng.shuffle(cs)
         for c in cs[:per]:
             out.append({"prop": pid, "case": c})
+    # index arithmetic whose intermediate products / sums leave the 32-bit range while every bound fits: column slices with two
+    # or three moderately large bounds / steps of either sign (46341**2 > 2**31), on small arrays
+    big = [46341, 65536, 100003, 2 ** 20 + 1, 2 ** 30 - 1, 2 ** 30]
+    for _ in range(400 if tier == "quick" else 4000):
+        lens = [rng.randint(0, 5) for _ in range(rng.randint(1, 5))]
+        def v():
+            return rng.choice(big) * rng.choice([1, -1]) if rng.random() < 0.75 else rng.choice([None, 0, 1, -1, 2, -2])
+        k = v()
+        while k == 0:
+            k = v()
+        idx = {"r": rng.choice([{"t": "all"}, {"t": "slice", "a": None, "b": None, "k": -1}, {"t": "int", "i": rng.randrange(len(lens))}]),
+               "c": {"t": "slice", "a": v(), "b": v(), "k": k}}
+        out.append({"prop": "C02", "case": {"lens": lens, "idx": idx, "dtype": "int64", "vseed": rng.randint(0, 999), "variant": rng.randint(0, 29)}})
     _cases = out
     return out
 
 
 def setup():
-    """run every case under int32 indices in a separate interpreter"""
+    """run every case under int32 indices in a separate interpreter (which first uses the library under 64-bit indices and then
+    switches); this process does the opposite: a warm-up under int32, then back to the default"""
     global _int32
+    import c19_worker
+    from npstructures.raggedshape import ViewBase
+    ViewBase.set_dtype(np.int32)
+    try:
+        c19_worker.warm_up()
+    finally:
+        ViewBase.set_dtype(np.int64)
     for pid in SOURCES:
         m = _mod(pid)
         if hasattr(m, "setup"):
